@@ -1,4 +1,26 @@
-//! C17 — placeholder (not registered in MANIFEST until built).
+//! C17 — external actions move once through request, claim and settlement — durably.
+//!
+//! Sim: the real external-action protocol (`record_external_action_request`,
+//! `claim_external_action`, `admit_external_action_settlement`,
+//! `reconcile_external_action_settlement_retry`, `observe_external_actions`,
+//! `ExternalActionCoordinatorV1::recover`) runs over a simulator-owned `SimWalStore`
+//! (`c17/store.rs`) that implements the real `WalStorePort` with a durable line. Clients issue
+//! Request / Claim / Settle / Reconcile / Observe operations over 1–6 request ids in the order
+//! stored in the scenario; faults (append error, flush error before/after durability, process
+//! death at every store call and after every operation, repeated crash-recover cycles) are
+//! explicit entries of the scenario's fault plan.
+//!
+//! Oracle: an independent `Life` state machine per request id, advanced only when the store
+//! model says that operation's commit marker reached the durable line (never by asking the code
+//! under test), plus a fault-free *twin* coordinator that executes exactly the durable
+//! operations (`c17/driver.rs`).
+//!
+//! Second surface (a quarter of the runs): the same tapes on the real `FilesystemWalStore` in the
+//! run's scratch directory, with crash images taken through the I/O-point hook (`c17/fs.rs`).
+
+mod driver;
+mod fs;
+mod store;
 
 use serde::{Deserialize, Serialize};
 
@@ -6,26 +28,644 @@ use crate::kernel::{Outcome, PropertySpec, Rng, RunCtx, Scenario, Tier};
 
 pub const SPEC: PropertySpec = PropertySpec {
     id: "C17",
-    level: "exploration",
-    rule: "placeholder",
-    quick_runs: 1,
-    thorough_runs: 1,
-    real_components: &[],
-    stub_components: &[],
-    assumptions: &[],
-    fault_kinds: &[],
+    level: "fault_enumeration",
+    rule: "scenario = 1-6 request ids + op tape (Request/StashToken/Claim/StashGrant/Settle/Reconcile/Observe; ~70% next lawful transition of some id, ~30% arbitrary incl. invalid arguments, second claim/settlement with a kept token/grant, conflicting retry) + fault plan keyed by op index (append error at frame k stored or not, flush error before/after durability, process death before/after the frame write, inside the commit flush before/after durability and after the op, surviving part of the un-flushed tail, repeated crash-recover cycles, operations against the poisoned coordinator before recovery) + storage surface (3/4 SimWalStore, 1/4 real FilesystemWalStore with crash images at I/O points incl. torn records); non-trivial = at least one lifecycle durably reached Claimed and at least one fault fired; distinct = hash of (ops, fault plan)",
+    quick_runs: 12_000,
+    thorough_runs: 500_000,
+    real_components: &[
+        "warp_core::external_action::{record_external_action_request, claim_external_action, admit_external_action_settlement, reconcile_external_action_settlement_retry, observe_external_actions}",
+        "ExternalActionCoordinatorV1::{recover, recorded_request, claim_grant, admitted_settlement, observed_index}",
+        "RecoveredExternalActionIndexV1::root_digest (sparse Merkle index, incrementally maintained and rebuilt)",
+        "ExternalActionAdapterRegistryV1::authorize",
+        "causal_wal::{WalTransactionBuilder, recover_from_frames_and_commits, WalFrame::validate_integrity}",
+        "filesystem surface: causal_wal::{FilesystemWalStore (open, acquire_fresh_writer_epoch, append_frame, flush_external_action_commit, read_snapshot), recover_filesystem_store} with verif::install_io_observer crash images",
+    ],
+    stub_components: &[
+        "SimWalStore: WalStorePort (in-memory log with durable line, fault and crash injection)",
+        "FsBackend: thin WalStorePort wrapper around the real FilesystemWalStore that injects append/flush errors and takes crash images",
+        "twin coordinator always runs on a fault-free SimWalStore",
+    ],
+    assumptions: &[
+        "a commit marker is visible in the store only once its flush reached durability (a failed flush before durability leaves only the un-flushed frame behind)",
+        "after a crash or a failed append the caller runs ordinary writable WAL recovery (tail posture from the real scan, truncation through the store) before ExternalActionCoordinatorV1::recover, as ADR 0026 requires; half of the fault entries first try coordinator recovery on the untouched store, which must refuse a visible unclean tail",
+        "protocol v1 transactions carry exactly one frame, so 'frame k of a transaction' is frame 0 and the un-flushed tail holds at most one frame",
+        "clients (adapters) keep the tokens and grants they were handed across coordinator crashes",
+        "filesystem surface: bytes are on disk once the segment file was synced; at a crash none, all or half of the un-synced bytes survive; no crash is injected while writable recovery rewrites the segment (covered by C10)",
+    ],
+    fault_kinds: &[
+        "fault.append_error",
+        "fault.flush_error_before_durable",
+        "fault.flush_error_after_durable",
+        "fault.crash",
+        "fault.crash_partial_tail",
+    ],
 };
+
+#[derive(Clone, Copy, Debug, Serialize, Deserialize, PartialEq, Eq)]
+pub enum ReqBad {
+    None,
+    ZeroBytes,
+    ZeroAttempts,
+    TwoAttempts,
+    HugeBudget,
+}
+
+#[derive(Clone, Copy, Debug, Serialize, Deserialize, PartialEq, Eq)]
+pub enum SettleBad {
+    None,
+    /// Candidate names an attempt id nobody was granted.
+    WrongAttempt,
+    /// Candidate names the attempt granted for another request id.
+    OtherIdsAttempt(u8),
+    WrongAdapter,
+    WrongBasis,
+    WrongSchema,
+    ZeroSchemaEvidence,
+    ZeroExternalEvidence,
+    BadDigest,
+    /// Candidate names another request id than the grant.
+    WrongRequestId(u8),
+}
+
+#[derive(Clone, Debug, Serialize, Deserialize, PartialEq, Eq)]
+pub enum Op {
+    Request { id: u8, bad: ReqBad },
+    /// Re-derive the request token from the coordinator and keep it (enables a second claim attempt).
+    StashToken { id: u8 },
+    Claim { id: u8, adapter: u8, auth_from: Option<u8>, basis_ok: bool, attempt: u32, lease: u8 },
+    /// Re-derive the claim grant from the coordinator and keep it (enables a second settlement attempt).
+    StashGrant { id: u8 },
+    Settle { id: u8, kind: u8, len: u16, salt: u8, bad: SettleBad },
+    /// Retry of a settlement candidate; `retained` = resend exactly what was admitted.
+    Reconcile { id: u8, retained: bool, kind: u8, len: u16, salt: u8, bad: SettleBad },
+    Observe,
+}
+
+#[derive(Clone, Copy, Debug, Serialize, Deserialize, PartialEq, Eq)]
+pub enum CrashPoint {
+    AfterOp,
+    BeforeFrame(u32),
+    AfterFrame(u32),
+    FlushBeforeDurable,
+    FlushAfterDurable,
+}
+
+#[derive(Clone, Copy, Debug, Serialize, Deserialize, PartialEq, Eq)]
+pub enum FaultKind {
+    AppendError { frame: u32, stored: bool },
+    FlushErrorBeforeDurable,
+    FlushErrorAfterDurable,
+    /// `keep_tail` = how many un-flushed frames survive; `recrash` = extra crash-recover cycles right after recovery.
+    Crash { point: CrashPoint, keep_tail: u32, recrash: u8 },
+}
+
+#[derive(Clone, Copy, Debug, Serialize, Deserialize, PartialEq, Eq)]
+pub struct Fault {
+    pub at_op: u32,
+    pub kind: FaultKind,
+    /// After a failed append/flush: how many following ops still run against the poisoned coordinator.
+    pub linger: u8,
+    /// Recovery first tries `ExternalActionCoordinatorV1::recover` on the untouched store (must refuse an unclean tail).
+    pub direct_first: bool,
+    /// Filesystem surface only: which of the I/O points belonging to the chosen crash phase is hit.
+    #[serde(default)]
+    pub io_nudge: u8,
+}
+
+#[derive(Clone, Copy, Debug, Serialize, Deserialize, PartialEq, Eq, Default)]
+pub enum Surface {
+    /// Simulator-owned in-memory store with a durable line.
+    #[default]
+    Memory,
+    /// Real `FilesystemWalStore` in the run's scratch directory, crash images through the I/O-point hook.
+    Filesystem,
+}
 
 #[derive(Clone, Debug, Serialize, Deserialize)]
 pub struct C17 {
-    pub placeholder: u8,
+    pub n_ids: u8,
+    /// `max_settlement_bytes` per request id.
+    pub budgets: Vec<u16>,
+    /// Authority scope index (0/1) per request id.
+    pub scope_of: Vec<u8>,
+    pub ops: Vec<Op>,
+    pub faults: Vec<Fault>,
+    /// A crashed process is succeeded by one with a fresh writer epoch.
+    pub new_epoch_on_crash: bool,
+    #[serde(default)]
+    pub surface: Surface,
+    /// Avoidance mode for the finding `fs_torn_tail_invisible_to_coordinator_recovery`: when the crash image ends
+    /// in torn record bytes, always run ordinary writable WAL recovery before coordinator recovery.
+    #[serde(default)]
+    pub avoid_torn_direct: bool,
+}
+
+/// Adapter/scope pairs bound in the runtime-owned registry (adapter 2 is bound nowhere).
+pub(crate) fn adapter_bound(adapter: u8, scope: u8) -> bool {
+    matches!((adapter, scope), (0, 0) | (1, 0) | (0, 1))
+}
+
+impl C17 {
+    pub(crate) fn n(&self) -> usize {
+        (self.n_ids.max(1) as usize).min(6)
+    }
+    pub(crate) fn budget(&self, i: usize) -> u16 {
+        self.budgets.get(i).copied().unwrap_or(8).max(1)
+    }
+    pub(crate) fn scope(&self, i: usize) -> u8 {
+        self.scope_of.get(i).copied().unwrap_or(0) % 2
+    }
+}
+
+fn allows_durable(k: &FaultKind) -> bool {
+    match k {
+        FaultKind::AppendError { .. } | FaultKind::FlushErrorBeforeDurable => false,
+        FaultKind::FlushErrorAfterDurable => true,
+        FaultKind::Crash { point, .. } => matches!(point, CrashPoint::AfterOp | CrashPoint::FlushAfterDurable),
+    }
+}
+
+/// Result length within the budget; the exact boundary and the empty result are common.
+fn gen_len(rng: &mut Rng, budget: u16) -> u16 {
+    match rng.below(6) {
+        0 => budget,
+        1 => 0,
+        _ => rng.urange(0, budget as usize) as u16,
+    }
+}
+
+fn gen_settle_bad(rng: &mut Rng, n: usize) -> SettleBad {
+    match rng.below(10) {
+        0 => SettleBad::WrongAttempt,
+        1 => SettleBad::OtherIdsAttempt(rng.usize_below(n) as u8),
+        2 => SettleBad::WrongAdapter,
+        3 => SettleBad::WrongBasis,
+        4 => SettleBad::WrongSchema,
+        5 => SettleBad::ZeroSchemaEvidence,
+        6 => SettleBad::ZeroExternalEvidence,
+        7 => SettleBad::BadDigest,
+        8 => SettleBad::WrongRequestId(rng.usize_below(n) as u8),
+        _ => SettleBad::None,
+    }
 }
 
 impl Scenario for C17 {
-    fn generate(_rng: &mut Rng, _tier: Tier, _avoid: bool) -> Self {
-        C17 { placeholder: 0 }
+    fn generate(rng: &mut Rng, tier: Tier, avoid_known: bool) -> Self {
+        let n = 1 + rng.weighted(&[2, 4, 4, 3, 2, 2]);
+        let budgets: Vec<u16> = (0..n).map(|_| rng.urange(1, 24) as u16).collect();
+        let scope_of: Vec<u8> = (0..n).map(|_| u8::from(rng.chance(1, 4))).collect();
+        let max_ops = if tier == Tier::Thorough && rng.chance(1, 3) { 90 } else { 36 };
+        let n_ops = rng.urange(3, max_ops);
+        let lawful_pct = *rng.pick(&[50u64, 70, 70, 70, 85]);
+        // Swarm: fault kinds enabled per run, fault density, fault budget.
+        let mut kinds_on = [true; 4];
+        for k in kinds_on.iter_mut() {
+            *k = rng.chance(3, 4);
+        }
+        if !kinds_on.iter().any(|k| *k) {
+            kinds_on[rng.usize_below(4)] = true;
+        }
+        let max_faults = rng.weighted(&[1, 3, 4, 4, 3, 2, 1]);
+        let (pf_num, pf_den) = *rng.pick(&[(1u64, 8u64), (1, 5), (1, 3), (1, 2)]);
+
+        let mut life = vec![0u8; n]; // generator's shadow: 0 absent, 1 requested, 2 claimed, 3 settled
+        let mut settled_params: Vec<(u8, u16, u8)> = vec![(1, 0, 0); n];
+        let mut spare_tokens = vec![0u32; n]; // shadow of tokens / grants the clients hold
+        let mut spare_grants = vec![0u32; n];
+        let mut poison_left: Option<u32> = None; // Some(k): coordinator poisoned, k more ops before recovery
+        let mut ops = Vec::with_capacity(n_ops);
+        let mut faults: Vec<Fault> = Vec::new();
+
+        for idx in 0..n_ops {
+            let poisoned_now = match poison_left {
+                Some(0) => {
+                    poison_left = None;
+                    false
+                }
+                Some(k) => {
+                    poison_left = Some(k - 1);
+                    true
+                }
+                None => false,
+            };
+            let op = if rng.below(100) < lawful_pct {
+                // Next lawful transition of some id that is not finished yet.
+                let open: Vec<usize> = (0..n).filter(|i| life[*i] < 3).collect();
+                if rng.chance(1, 10) {
+                    Op::Observe
+                } else if open.is_empty() {
+                    let i = rng.usize_below(n);
+                    if rng.chance(3, 4) {
+                        Op::Reconcile { id: i as u8, retained: true, kind: 1, len: 0, salt: 0, bad: SettleBad::None }
+                    } else if rng.chance(1, 3) {
+                        // Spelled-out copy of what the generator believes was admitted (differs in one field at most).
+                        let (k, l, sa) = settled_params[i];
+                        let vary = rng.below(3);
+                        Op::Reconcile {
+                            id: i as u8,
+                            retained: false,
+                            kind: if vary == 1 { 1 + (k % 4) } else { k },
+                            len: l,
+                            salt: if vary == 2 { sa.wrapping_add(1) } else { sa },
+                            bad: SettleBad::None,
+                        }
+                    } else {
+                        Op::Reconcile {
+                            id: i as u8,
+                            retained: false,
+                            kind: 1 + rng.below(4) as u8,
+                            len: gen_len(rng, budgets[i]),
+                            salt: rng.below(4) as u8,
+                            bad: SettleBad::None,
+                        }
+                    }
+                } else {
+                    let i = *rng.pick(&open);
+                    match life[i] {
+                        0 => Op::Request { id: i as u8, bad: ReqBad::None },
+                        // Keep a spare token / grant around so that a second claim / settlement can be attempted later.
+                        1 if spare_tokens[i] == 0 && rng.chance(1, 3) => Op::StashToken { id: i as u8 },
+                        2 if spare_grants[i] == 0 && rng.chance(1, 3) => Op::StashGrant { id: i as u8 },
+                        1 => Op::Claim {
+                            id: i as u8,
+                            adapter: if scope_of[i] == 0 { rng.below(2) as u8 } else { 0 },
+                            auth_from: None,
+                            basis_ok: true,
+                            attempt: 0,
+                            lease: 1 + rng.below(2) as u8,
+                        },
+                        _ => Op::Settle {
+                            id: i as u8,
+                            kind: 1 + rng.below(4) as u8,
+                            len: gen_len(rng, budgets[i]),
+                            salt: rng.below(4) as u8,
+                            bad: SettleBad::None,
+                        },
+                    }
+                }
+            } else {
+                let mut i = rng.usize_below(n);
+                let shape = rng.weighted(&[3, 2, 5, 2, 5, 4, 2]);
+                let all_valid = rng.chance(1, 2);
+                // Aim the interesting shapes at ids where they bite: a valid second claim / settlement at ids
+                // whose client still holds a spare token / grant, invalid arguments at ids where the
+                // transition would otherwise be lawful, retries at settled ids.
+                if rng.chance(2, 3) {
+                    let pool: Vec<usize> = match (shape, all_valid) {
+                        (2, true) => (0..n).filter(|j| spare_tokens[*j] > 0 && life[*j] >= 2).collect(),
+                        (2, false) => (0..n).filter(|j| life[*j] == 1).collect(),
+                        (4, true) => (0..n).filter(|j| spare_grants[*j] > 0 && life[*j] >= 3).collect(),
+                        (4, false) => (0..n).filter(|j| life[*j] == 2).collect(),
+                        (5, _) => (0..n).filter(|j| life[*j] == 3).collect(),
+                        _ => Vec::new(),
+                    };
+                    if !pool.is_empty() {
+                        i = *rng.pick(&pool);
+                    }
+                }
+                match shape {
+                    0 => Op::Request {
+                        id: i as u8,
+                        bad: *rng.pick(&[ReqBad::None, ReqBad::None, ReqBad::ZeroBytes, ReqBad::ZeroAttempts, ReqBad::TwoAttempts, ReqBad::HugeBudget]),
+                    },
+                    1 => Op::StashToken { id: i as u8 },
+                    2 if all_valid => Op::Claim {
+                        id: i as u8,
+                        adapter: if scope_of[i] == 0 { rng.below(2) as u8 } else { 0 },
+                        auth_from: None,
+                        basis_ok: true,
+                        attempt: 0,
+                        lease: 1 + rng.below(2) as u8,
+                    },
+                    4 if all_valid => Op::Settle {
+                        id: i as u8,
+                        kind: 1 + rng.below(4) as u8,
+                        len: gen_len(rng, budgets[i]),
+                        salt: rng.below(4) as u8,
+                        bad: SettleBad::None,
+                    },
+                    2 => Op::Claim {
+                        id: i as u8,
+                        adapter: rng.weighted(&[4, 3, 1]) as u8,
+                        auth_from: if rng.chance(1, 5) { Some(rng.usize_below(n) as u8) } else { None },
+                        basis_ok: !rng.chance(1, 6),
+                        attempt: *rng.pick(&[0u32, 0, 0, 0, 1, 7, u32::MAX]),
+                        lease: rng.weighted(&[1, 3, 3]) as u8,
+                    },
+                    3 => Op::StashGrant { id: i as u8 },
+                    4 => Op::Settle {
+                        id: i as u8,
+                        kind: 1 + rng.below(4) as u8,
+                        len: if rng.chance(1, 4) { budgets[i] + 1 + rng.weighted(&[3, 1, 1]) as u16 } else { gen_len(rng, budgets[i]) },
+                        salt: rng.below(4) as u8,
+                        bad: if rng.chance(1, 2) { gen_settle_bad(rng, n) } else { SettleBad::None },
+                    },
+                    5 => Op::Reconcile {
+                        id: i as u8,
+                        retained: rng.chance(1, 2),
+                        kind: 1 + rng.below(4) as u8,
+                        len: if rng.chance(1, 6) { budgets[i] + 1 } else { gen_len(rng, budgets[i]) },
+                        salt: rng.below(4) as u8,
+                        bad: if rng.chance(1, 3) { gen_settle_bad(rng, n) } else { SettleBad::None },
+                    },
+                    _ => Op::Observe,
+                }
+            };
+            // Would this op write a lifecycle transaction (per the generator's shadow)?
+            let lawful_write = !poisoned_now
+                && match &op {
+                    Op::Request { id, bad } => *bad == ReqBad::None && life[*id as usize] == 0,
+                    Op::Claim { id, adapter, auth_from, basis_ok, attempt, lease } => {
+                        let i = *id as usize;
+                        life[i] == 1
+                            && adapter_bound(*adapter, scope_of[i])
+                            && auth_from.is_none_or(|s| s as usize == i)
+                            && *basis_ok
+                            && *attempt == 0
+                            && *lease != 0
+                    }
+                    Op::Settle { id, len, bad, .. } => {
+                        let i = *id as usize;
+                        life[i] == 2 && *bad == SettleBad::None && *len <= budgets[i]
+                    }
+                    _ => false,
+                };
+            let want_fault = faults.len() < max_faults && if lawful_write { rng.chance(pf_num, pf_den) } else { rng.chance(1, 30) };
+            let mut durable = lawful_write;
+            if want_fault {
+                let mut pick = rng.weighted(&[3, 3, 3, 6]);
+                for _ in 0..4 {
+                    if kinds_on[pick] {
+                        break;
+                    }
+                    pick = (pick + 1) % 4;
+                }
+                if !lawful_write && rng.chance(3, 4) {
+                    pick = 3;
+                }
+                let kind = match pick {
+                    0 => FaultKind::AppendError { frame: 0, stored: rng.chance(1, 2) },
+                    1 => FaultKind::FlushErrorBeforeDurable,
+                    2 => FaultKind::FlushErrorAfterDurable,
+                    _ => {
+                        let point = if lawful_write {
+                            match rng.weighted(&[3, 2, 3, 2, 3]) {
+                                0 => CrashPoint::AfterOp,
+                                1 => CrashPoint::BeforeFrame(0),
+                                2 => CrashPoint::AfterFrame(0),
+                                3 => CrashPoint::FlushBeforeDurable,
+                                _ => CrashPoint::FlushAfterDurable,
+                            }
+                        } else {
+                            CrashPoint::AfterOp
+                        };
+                        FaultKind::Crash { point, keep_tail: rng.weighted(&[2, 3, 1]) as u32, recrash: rng.weighted(&[6, 2, 1]) as u8 }
+                    }
+                };
+                let f = Fault { at_op: idx as u32, kind, linger: rng.weighted(&[4, 2, 1]) as u8, direct_first: rng.chance(1, 2), io_nudge: rng.below(6) as u8 };
+                if lawful_write {
+                    durable = allows_durable(&kind);
+                    if !matches!(kind, FaultKind::Crash { .. }) {
+                        poison_left = Some(u32::from(f.linger));
+                    }
+                }
+                if matches!(kind, FaultKind::Crash { .. }) {
+                    poison_left = None;
+                }
+                faults.push(f);
+            }
+            if !poisoned_now && !want_fault {
+                match &op {
+                    Op::Request { id, bad: ReqBad::None } if life[*id as usize] == 0 => spare_tokens[*id as usize] += 1,
+                    Op::StashToken { id } if life[*id as usize] == 1 => spare_tokens[*id as usize] += 1,
+                    Op::StashGrant { id } if life[*id as usize] == 2 => spare_grants[*id as usize] += 1,
+                    Op::Claim { id, .. } => {
+                        let i = *id as usize;
+                        if lawful_write {
+                            spare_grants[i] += 1;
+                        }
+                        spare_tokens[i] = spare_tokens[i].saturating_sub(1);
+                    }
+                    Op::Settle { id, .. } => spare_grants[*id as usize] = spare_grants[*id as usize].saturating_sub(1),
+                    _ => {}
+                }
+            }
+            if durable {
+                match &op {
+                    Op::Request { id, .. } => life[*id as usize] = 1,
+                    Op::Claim { id, .. } => life[*id as usize] = 2,
+                    Op::Settle { id, kind, len, salt, .. } => {
+                        life[*id as usize] = 3;
+                        settled_params[*id as usize] = (*kind, *len, *salt);
+                    }
+                    _ => {}
+                }
+            }
+            ops.push(op);
+        }
+        let new_epoch_on_crash = rng.chance(1, 2);
+        let surface = if rng.chance(1, 4) { Surface::Filesystem } else { Surface::Memory };
+        C17 { n_ids: n as u8, budgets, scope_of, ops, faults, new_epoch_on_crash, surface, avoid_torn_direct: false }
     }
-    fn execute(&self, _ctx: &mut RunCtx) -> Outcome {
-        Outcome::Ok
+
+    fn execute(&self, ctx: &mut RunCtx) -> Outcome {
+        match self.surface {
+            Surface::Memory => {
+                let mut store = store::SimWalStore::new();
+                store.force_epoch(store::sim_epoch_id(0));
+                driver::run(self, store, ctx)
+            }
+            Surface::Filesystem => {
+                let dir = ctx.scratch_dir();
+                match fs::FsBackend::new(&dir) {
+                    Ok(store) => {
+                        ctx.hit("reach.filesystem_surface_runs");
+                        driver::run(self, store, ctx)
+                    }
+                    Err(e) => Outcome::violation("harness:fs_open", e),
+                }
+            }
+        }
+    }
+
+    fn shrink_candidates(&self) -> Vec<Self> {
+        let mut out = Vec::new();
+        // Drop one op (faults on it vanish, later faults move up).
+        for i in 0..self.ops.len() {
+            let mut s = self.clone();
+            s.ops.remove(i);
+            s.faults.retain(|f| f.at_op as usize != i);
+            for f in &mut s.faults {
+                if f.at_op as usize > i {
+                    f.at_op -= 1;
+                }
+            }
+            out.push(s);
+        }
+        // Drop one fault.
+        for i in 0..self.faults.len() {
+            let mut s = self.clone();
+            s.faults.remove(i);
+            out.push(s);
+        }
+        // Simplify one fault.
+        for i in 0..self.faults.len() {
+            let f = self.faults[i];
+            if f.linger > 0 {
+                let mut s = self.clone();
+                s.faults[i].linger = 0;
+                out.push(s);
+            }
+            if f.direct_first {
+                let mut s = self.clone();
+                s.faults[i].direct_first = false;
+                out.push(s);
+            }
+            if let FaultKind::Crash { point, keep_tail, recrash } = f.kind {
+                if recrash > 0 {
+                    let mut s = self.clone();
+                    s.faults[i].kind = FaultKind::Crash { point, keep_tail, recrash: 0 };
+                    out.push(s);
+                }
+                if keep_tail > 0 {
+                    let mut s = self.clone();
+                    s.faults[i].kind = FaultKind::Crash { point, keep_tail: 0, recrash };
+                    out.push(s);
+                }
+                if point != CrashPoint::AfterOp {
+                    let mut s = self.clone();
+                    s.faults[i].kind = FaultKind::Crash { point: CrashPoint::AfterOp, keep_tail, recrash };
+                    out.push(s);
+                }
+            }
+            if let FaultKind::AppendError { frame, stored: true } = f.kind {
+                let mut s = self.clone();
+                s.faults[i].kind = FaultKind::AppendError { frame, stored: false };
+                out.push(s);
+            }
+        }
+        // Remove the highest request id when nothing refers to it.
+        let n = self.n();
+        if n > 1 {
+            let top = (n - 1) as u8;
+            let refers = |o: &Op| match o {
+                Op::Request { id, .. } | Op::StashToken { id } | Op::StashGrant { id } => *id >= top,
+                Op::Claim { id, auth_from, .. } => *id >= top || auth_from.is_some_and(|a| a >= top),
+                Op::Settle { id, bad, .. } | Op::Reconcile { id, bad, .. } => {
+                    *id >= top || matches!(bad, SettleBad::OtherIdsAttempt(a) | SettleBad::WrongRequestId(a) if *a >= top)
+                }
+                Op::Observe => false,
+            };
+            if !self.ops.iter().any(refers) {
+                let mut s = self.clone();
+                s.n_ids = top;
+                s.budgets.truncate(n - 1);
+                s.scope_of.truncate(n - 1);
+                out.push(s);
+            }
+        }
+        // Compact the request ids in use onto 0..k.
+        {
+            let mut used = vec![false; n];
+            let mut mark = |v: u8| used[v as usize % n] = true;
+            for o in &self.ops {
+                match o {
+                    Op::Request { id, .. } | Op::StashToken { id } | Op::StashGrant { id } => mark(*id),
+                    Op::Claim { id, auth_from, .. } => {
+                        mark(*id);
+                        if let Some(a) = auth_from {
+                            mark(*a);
+                        }
+                    }
+                    Op::Settle { id, bad, .. } | Op::Reconcile { id, bad, .. } => {
+                        mark(*id);
+                        if let SettleBad::OtherIdsAttempt(a) | SettleBad::WrongRequestId(a) = bad {
+                            mark(*a);
+                        }
+                    }
+                    Op::Observe => {}
+                }
+            }
+            let k = used.iter().filter(|u| **u).count();
+            if k >= 1 && k < n {
+                let mut map = vec![0u8; n];
+                let mut next = 0u8;
+                for (v, u) in used.iter().enumerate() {
+                    if *u {
+                        map[v] = next;
+                        next += 1;
+                    }
+                }
+                let m = |v: u8| map[v as usize % n];
+                let mut s = self.clone();
+                s.n_ids = k as u8;
+                s.budgets = (0..n).filter(|v| used[*v]).map(|v| self.budget(v)).collect();
+                s.scope_of = (0..n).filter(|v| used[*v]).map(|v| self.scope(v)).collect();
+                for o in &mut s.ops {
+                    match o {
+                        Op::Request { id, .. } | Op::StashToken { id } | Op::StashGrant { id } => *id = m(*id),
+                        Op::Claim { id, auth_from, .. } => {
+                            *id = m(*id);
+                            if let Some(a) = auth_from {
+                                *a = m(*a);
+                            }
+                        }
+                        Op::Settle { id, bad, .. } | Op::Reconcile { id, bad, .. } => {
+                            *id = m(*id);
+                            if let SettleBad::OtherIdsAttempt(a) | SettleBad::WrongRequestId(a) = bad {
+                                *a = m(*a);
+                            }
+                        }
+                        Op::Observe => {}
+                    }
+                }
+                out.push(s);
+            }
+        }
+        if self.new_epoch_on_crash {
+            let mut s = self.clone();
+            s.new_epoch_on_crash = false;
+            out.push(s);
+        }
+        if self.surface == Surface::Filesystem {
+            let mut s = self.clone();
+            s.surface = Surface::Memory;
+            out.push(s);
+        }
+        for i in 0..self.faults.len() {
+            if self.faults[i].io_nudge != 0 {
+                let mut s = self.clone();
+                s.faults[i].io_nudge = 0;
+                out.push(s);
+            }
+        }
+        // Simplify op arguments.
+        for i in 0..self.ops.len() {
+            let simpler: Option<Op> = match &self.ops[i] {
+                Op::Settle { id, kind, len, salt, bad } if *len > 0 || *salt > 0 || *kind != 1 => {
+                    Some(Op::Settle { id: *id, kind: 1, len: (*len).min(1), salt: 0, bad: *bad })
+                }
+                Op::Reconcile { id, retained, kind, len, salt, bad } if !*retained && (*len > 0 || *kind != 1) => {
+                    Some(Op::Reconcile { id: *id, retained: false, kind: 1, len: 0, salt: *salt, bad: *bad })
+                }
+                Op::Claim { id, adapter, auth_from, basis_ok, attempt, lease } if *adapter != 0 || *lease > 1 => {
+                    Some(Op::Claim { id: *id, adapter: 0, auth_from: *auth_from, basis_ok: *basis_ok, attempt: *attempt, lease: (*lease).min(1) })
+                }
+                _ => None,
+            };
+            if let Some(o) = simpler {
+                let mut s = self.clone();
+                s.ops[i] = o;
+                out.push(s);
+            }
+        }
+        for i in 0..self.scope_of.len() {
+            if self.scope_of[i] != 0 {
+                let mut s = self.clone();
+                s.scope_of[i] = 0;
+                out.push(s);
+            }
+        }
+        out
     }
 }
